@@ -81,6 +81,11 @@ def step_compare(run, c, obs_list, key, idmap=None, tol_scale=1.0, warmup=False,
     """Run one real iteration from the lattice state and compare the applied increment with the exact Gauss-Newton step.
     obs_list: exact normal equations under the canonical and (if different) the raw sign convention; either is accepted."""
     obs = obs_list[0]
+    if sign_sensitive(c) and len(obs_list) < 2 and not any(o.get('conv') == 'canon' for o in obs_list) and any(w[0] < 0 for w in obs['ws']):
+        # only the RAW-convention evaluation of this case fitted TLC's integers: the code may use the canonical convention (it does), and the two
+        # differ here (an error quaternion with w < 0) -- nothing to compare with
+        run.skip('the canonical-convention evaluation exceeded TLC headroom (raw one only): not judged')
+        return None
     if GC.has_wrap_atom(obs):
         run.skip('an SE(2) angular error is exactly +-pi (excluded: the error function is discontinuous there)')
         return None
@@ -281,7 +286,7 @@ def check(run, cases=None):
         if r is not None and run.replayed % 29 == 1:
             run.sample(dict(case=c, exact_free_coordinates=obs['free'], exact_step=[e.tolist() for e in r[1]], initial_chi2=r[2].initial_chi2))
     run.notes['features_covered'] = feats
-    if min(feats.values()) == 0:
+    if min(feats.values()) == 0 and cases_given is None:
         raise RuntimeError('vacuity guard: a feature of the quantifier was never generated: %r' % feats)
     if cases_given is None:
         error_object_twins(run)
